@@ -207,7 +207,15 @@ func sampleTyped(rng *rand.Rand, pkg CorpusPkg, mode Mode, i int) CScenario {
 					c.Fault = &Fault{Kind: "append", Arg: []string{"}", " x", "]", "\x00", ",", "{}", "1", "\"s\"", "null", "  \n"}[rng.Intn(10)]}
 				}
 			case ModeC19:
-				if rng.Intn(8) == 0 {
+				if sc.CustomNF && rng.Intn(5) == 0 {
+					// neighbours whose requests fail routing (the application's own NotFound / MethodNotAllowed handlers
+					// answer them, several at a time)
+					if rng.Intn(2) == 0 {
+						c.Fault = &Fault{Kind: "method", Arg: []string{"PUT", "DELETE", "PATCH", "HEAD"}[rng.Intn(4)]}
+					} else {
+						c.Fault = &Fault{Kind: "mangle", Arg: "path:0", Val: "nosuchroute" + fmt.Sprint(rng.Intn(1000))}
+					}
+				} else if rng.Intn(8) == 0 {
 					c.Fault = &Fault{Kind: []string{"cut-req", "cancel", "cut-resp", "writer-fail", "dup", "replay"}[rng.Intn(6)], Frac: frac(), At: 1 + rng.Intn(30)}
 					if k := c.Fault.Kind; k == "cancel" || k == "writer-fail" || k == "dup" || k == "replay" {
 						c.Fault.Frac = 0
